@@ -40,6 +40,7 @@ type SpecEnv struct {
 	isPrePost bool
 	loop      *loopInfo
 	inOld     bool
+	inStep    bool // evaluating a `loop K step` clause (prev(e) allowed)
 	depth     int
 }
 
@@ -1186,6 +1187,16 @@ func (env *SpecEnv) evalCall(e *ast.CallExpr) (TV, error) {
 			return TV{}, err
 		}
 		return TV{x.t, types.Typ[types.Int64]}, nil
+	case "prev":
+		// prev(e), in a `loop K step` clause only: the value e had at the head of the iteration that just ended
+		if !env.inStep || env.loop == nil || env.loop.snapshot == nil || len(e.Args) != 1 {
+			return TV{}, fmt.Errorf("prev(e) is only meaningful in a loop step clause")
+		}
+		saveSt, saveOld := env.st, env.inOld
+		env.st, env.inOld = env.loop.snapshot, false
+		r, err := env.eval(e.Args[0])
+		env.st, env.inOld = saveSt, saveOld
+		return r, err
 	case "atloop":
 		// atloop(K, e): the value e had at the head of loop K in the current iteration of that loop
 		// (the symbolic state right after the loop was cut); for inner-loop invariants and variants.
